@@ -12,7 +12,8 @@ import warnings
 import functools
 from operator import attrgetter
 from types import MappingProxyType
-from typing import Any, Optional, TYPE_CHECKING, cast
+from collections.abc import Mapping
+from typing import Any, Optional, TYPE_CHECKING, Union, cast
 
 from xmlschema.aliases import SchemaType, SourceArgType, LocationsType
 from xmlschema.exceptions import XMLSchemaTypeError, XMLSchemaValueError, \
@@ -41,7 +42,8 @@ class SchemaLoader:
     The default schema loader, that processes an import statement only
     if the referred namespace is not imported yet.
     """
-    fallback_locations = MappingProxyType({**LOCATIONS, **FALLBACK_LOCATIONS})
+    fallback_locations: Mapping[str, Union[str, list[str]]] = \
+        MappingProxyType({**LOCATIONS, **FALLBACK_LOCATIONS})
 
     locations: NamespaceResourcesMap[str]
     schema_class: type[SchemaType]
@@ -61,7 +63,7 @@ class SchemaLoader:
         self.missing_locations = set()
 
         if not use_fallback:
-            self.fallback_locations = MappingProxyType({})
+            self.fallback_locations = {}  # an instance attribute: it has to be picklable
 
     def clear(self) -> None:
         self.maps.clear()
